@@ -83,6 +83,7 @@ func (e *Engine) initSummaries(fs []*ssa.Function) {
 						add(fmt.Sprintf(">=p%d", pi), func(e callEnv) Lin { return le(e.arg(pi), e.ret(ri)) })
 						add(fmt.Sprintf(">=p%d+1", pi), func(e callEnv) Lin { return lt(e.arg(pi), e.ret(ri)) })
 						add(fmt.Sprintf("<=p%d", pi), func(e callEnv) Lin { return le(e.ret(ri), e.arg(pi)) })
+						add(fmt.Sprintf("<=p%d+1", pi), func(e callEnv) Lin { return le(e.ret(ri), e.arg(pi).plus(1)) })
 					}
 				}
 			} else if isSliceOrStr(rt) {
